@@ -33,6 +33,43 @@ def _reraises_iff_fail_on_error(h):
             and len(last.body) == 1 and isinstance(last.body[0], ast.Raise) and last.body[0].exc is None and not last.orelse)
 
 
+def _remembers_iff_fail_on_error(h):
+    """handler body ends with `if fail_on_error and first_error is None: first_error = e` (55f24eb: the
+    first error is raised after every response was examined)"""
+    last = h.body[-1]
+    if not (isinstance(last, ast.If) and isinstance(last.test, ast.BoolOp) and isinstance(last.test.op, ast.And) and not last.orelse):
+        return False
+    vs = last.test.values
+    if not (len(vs) == 2 and isinstance(vs[0], ast.Name) and vs[0].id == "fail_on_error" and isinstance(vs[1], ast.Compare)
+            and isinstance(vs[1].left, ast.Name) and vs[1].left.id == "first_error" and isinstance(vs[1].ops[0], ast.Is)
+            and isinstance(vs[1].comparators[0], ast.Constant) and vs[1].comparators[0].value is None):
+        return False
+    b = last.body
+    return (len(b) == 1 and isinstance(b[0], ast.Assign) and isinstance(b[0].targets[0], ast.Name) and b[0].targets[0].id == "first_error"
+            and isinstance(b[0].value, ast.Name) and b[0].value.id == h.name)
+
+
+def _examines_all_shape(hr, tr):
+    """the rest of the 55f24eb shape: `first_error = None` before the loop, nothing is collected once an error is
+    remembered (`if first_error is not None: continue` right after the try), `raise first_error` after the loop"""
+    loops = [n for n in hr.body if isinstance(n, ast.For)]
+    if len(loops) != 1:
+        return False
+    loop = loops[0]
+    i = hr.body.index(loop)
+    init = any(isinstance(n, ast.Assign) and isinstance(n.targets[0], ast.Name) and n.targets[0].id == "first_error"
+               and isinstance(n.value, ast.Constant) and n.value.value is None for n in hr.body[:i])
+    def is_set(t):
+        return (isinstance(t, ast.Compare) and isinstance(t.left, ast.Name) and t.left.id == "first_error"
+                and isinstance(t.ops[0], ast.IsNot) and isinstance(t.comparators[0], ast.Constant) and t.comparators[0].value is None)
+    j = loop.body.index(tr)
+    skip = (j + 1 < len(loop.body) and isinstance(loop.body[j + 1], ast.If) and is_set(loop.body[j + 1].test)
+            and len(loop.body[j + 1].body) == 1 and isinstance(loop.body[j + 1].body[0], ast.Continue))
+    final = any(isinstance(n, ast.If) and is_set(n.test) and len(n.body) == 1 and isinstance(n.body[0], ast.Raise)
+                and isinstance(n.body[0].exc, ast.Name) and n.body[0].exc.id == "first_error" for n in hr.body[i + 1:])
+    return init and skip and final
+
+
 def _calls(h, method):
     for n in ast.walk(h):
         if isinstance(n, ast.Call) and isinstance(n.func, ast.Attribute) and n.func.attr == method:
@@ -48,10 +85,15 @@ def extract(src):
     if len(tries) != 1:
         raise KeyError("_handle_responses: expected one try")
     topic_errs, group_errs, catch_all = None, None, False
+    forms = set()
     for h in tries[0].handlers:
         names = _names(h.type)
-        if not _reraises_iff_fail_on_error(h):
-            raise KeyError("_handle_responses: handler %s does not end with `if fail_on_error: raise`" % names)
+        if _reraises_iff_fail_on_error(h):
+            forms.add("raise")
+        elif _remembers_iff_fail_on_error(h):
+            forms.add("remember")
+        else:
+            raise KeyError("_handle_responses: handler %s ends neither with `if fail_on_error: raise` nor with remembering the first error" % names)
         if names == ["BrokerResponseError"]:
             catch_all = True
         elif _calls(h, "reset_topic_metadata"):
@@ -62,6 +104,18 @@ def extract(src):
             raise KeyError("_handle_responses: unrecognised handler %s" % names)
     if topic_errs is None or group_errs is None:
         raise KeyError("_handle_responses: topic/group reset handlers not found")
+    if len(forms) != 1:
+        raise KeyError("_handle_responses: handlers of mixed forms %s" % sorted(forms))
+    examines_all = forms == {"remember"}
+    if examines_all and not _examines_all_shape(hr, tries[0]):
+        raise KeyError("_handle_responses: first_error is remembered but not (initialised, skipped past, raised at the end)")
+    # reset_all_metadata: is partition_meta cleared too? (f6d26dd)
+    ram = src.func("client.py", "KafkaClient.reset_all_metadata")
+    cleared = sorted(n.func.value.attr for n in ast.walk(ram) if isinstance(n, ast.Call) and isinstance(n.func, ast.Attribute)
+                     and n.func.attr == "clear" and isinstance(n.func.value, ast.Attribute))
+    base = ["_group_to_coordinator", "topic_errors", "topic_partitions", "topics_to_brokers"]
+    if cleared not in (base, sorted(base + ["partition_meta"])):
+        raise KeyError("reset_all_metadata clears %s" % cleared)
     # join_group min_timeout in _group.py: `min_timeout=<expr>` keyword of _send_request_to_coordinator
     join_min = None
     for n in ast.walk(src.tree("_group.py")):
@@ -133,4 +187,6 @@ def extract(src):
         ("clientSendValidatesKeysFirst", bool(validates_first)),
         ("clientCloseIdempotent", bool(idempotent)),
         ("clientCloseWakesRetryDelays", bool(wakes)),
+        ("clientHandleExaminesAll", bool(examines_all)),
+        ("clientResetAllClearsPartMeta", "partition_meta" in cleared),
     ]
